@@ -353,4 +353,64 @@ theorem M_sound_bellatrix (cfg : Config) (S0 : State) (p Bm C T k : Nat) (commit
   rw [hp] at this
   cases this
 
+
+open Zrnt.Proofs.BlockM (P0Const P0AConst P0DConst AltConst CapConst AltInv CapellaBlock Admissible Safe) in
+/-- `M_sound_capella` — C03 for capella WITHOUT the premise `OpSteps` (see `Zrnt.Proofs.C01.processBlock_capella_eq`). -/
+theorem M_sound_capella (cfg : Config) (S0 : State) (p Bm C T k : Nat) (committee : SyncCommittee) (K : P0Const cfg S0 Bm C)
+    (KA : P0AConst cfg) (KD : P0DConst cfg Bm) (KL : AltConst cfg S0 Bm T) (KC : CapConst cfg) (hsps : 0 < cfg.SECONDS_PER_SLOT)
+    (hF : S0.fork = .capella) (ctx : BlockM.Ctx) (block : SignedBlock) (hb : CapellaBlock cfg Bm block)
+    (hi : AltInv cfg S0 p Bm C T committee (Zrnt.Proofs.BlockM.blockNeed block k) ctx S0)
+    (htyped : Block.check_types cfg block = .ok ()) (r : Bytes) (hroot : block.o_post_root = some r) :
+    (∀ m, Block.process_block cfg S0 block = .error (.invalid m) → BlockM.processBlock cfg ctx S0 block = .err) ∧
+    (∀ m, Block.state_transition_post_slots cfg S0 block = .error (.invalid m) → BlockM.postSlotTransition cfg ctx S0 block = .err) ∧
+    Safe (BlockM.processBlock cfg ctx S0 block) ∧ Safe (BlockM.postSlotTransition cfg ctx S0 block) ∧
+    (∀ post, BlockM.postSlotTransition cfg ctx S0 block = .ok post →
+      ∀ m, Block.state_transition_post_slots cfg S0 block ≠ .error (.invalid m)) := by
+  have h1 := (Zrnt.Proofs.BlockM.processBlock_capella cfg S0 p Bm C T k committee .capella (by decide) K KA KD KL KC hsps hF ctx block hb hi htyped).1
+  have h2 := Zrnt.Proofs.BlockM.postSlot_capella cfg S0 p Bm C T k committee .capella (by decide) K KA KD KL KC hsps hF ctx block hb hi htyped r hroot
+  refine ⟨h1.1.2, h2.1.2, h1.2, h2.2, fun post hp m hm => ?_⟩
+  have := h2.1.2 m hm
+  rw [hp] at this
+  cases this
+
+open Zrnt.Proofs.BlockM (P0Const P0AConst P0DConst AltConst CapConst AltInv CapellaBlock Admissible Safe) in
+/-- `M_sound_deneb` — C03 for deneb WITHOUT the premise `OpSteps` (see `Zrnt.Proofs.C01.processBlock_deneb_eq`). -/
+theorem M_sound_deneb (cfg : Config) (S0 : State) (p Bm C T k : Nat) (committee : SyncCommittee) (K : P0Const cfg S0 Bm C)
+    (KA : P0AConst cfg) (KD : P0DConst cfg Bm) (KL : AltConst cfg S0 Bm T) (KC : CapConst cfg) (hsps : 0 < cfg.SECONDS_PER_SLOT)
+    (hF : S0.fork = .deneb) (ctx : BlockM.Ctx) (block : SignedBlock) (hb : CapellaBlock cfg Bm block)
+    (hi : AltInv cfg S0 p Bm C T committee (Zrnt.Proofs.BlockM.blockNeed block k) ctx S0)
+    (htyped : Block.check_types cfg block = .ok ()) (r : Bytes) (hroot : block.o_post_root = some r) :
+    (∀ m, Block.process_block cfg S0 block = .error (.invalid m) → BlockM.processBlock cfg ctx S0 block = .err) ∧
+    (∀ m, Block.state_transition_post_slots cfg S0 block = .error (.invalid m) → BlockM.postSlotTransition cfg ctx S0 block = .err) ∧
+    Safe (BlockM.processBlock cfg ctx S0 block) ∧ Safe (BlockM.postSlotTransition cfg ctx S0 block) ∧
+    (∀ post, BlockM.postSlotTransition cfg ctx S0 block = .ok post →
+      ∀ m, Block.state_transition_post_slots cfg S0 block ≠ .error (.invalid m)) := by
+  have h1 := (Zrnt.Proofs.BlockM.processBlock_capella cfg S0 p Bm C T k committee .deneb (by decide) K KA KD KL KC hsps hF ctx block hb hi htyped).1
+  have h2 := Zrnt.Proofs.BlockM.postSlot_capella cfg S0 p Bm C T k committee .deneb (by decide) K KA KD KL KC hsps hF ctx block hb hi htyped r hroot
+  refine ⟨h1.1.2, h2.1.2, h1.2, h2.2, fun post hp m hm => ?_⟩
+  have := h2.1.2 m hm
+  rw [hp] at this
+  cases this
+
+open Zrnt.Proofs.BlockM (P0Const P0AConst P0DConst AltConst CapConst AltInv CapellaBlock Admissible Safe) in
+/-- `M_sound` — C03, all five forks, WITHOUT the premise `OpSteps`: every block (of the fork's block type) that the
+specification rejects is rejected by `ProcessBlock` and by `PostSlotTransition`, without panic and without a runaway loop; a
+block the model accepts is not one the specification rejects. `Admissible`: the disjunction over the fork of the pre-state of
+the per-fork hypotheses (`Zrnt.Proofs.C01.M_block_refines_S`). -/
+theorem M_sound (cfg : Config) (S0 : State) (p Bm C T k : Nat) (committee : SyncCommittee) (K : P0Const cfg S0 Bm C)
+    (KA : P0AConst cfg) (KD : P0DConst cfg Bm) (ctx : BlockM.Ctx) (block : SignedBlock)
+    (ha : Admissible cfg S0 p Bm C T committee k ctx block)
+    (htyped : Block.check_types cfg block = .ok ()) (r : Bytes) (hroot : block.o_post_root = some r) :
+    (∀ m, Block.process_block cfg S0 block = .error (.invalid m) → BlockM.processBlock cfg ctx S0 block = .err) ∧
+    (∀ m, Block.state_transition_post_slots cfg S0 block = .error (.invalid m) → BlockM.postSlotTransition cfg ctx S0 block = .err) ∧
+    Safe (BlockM.processBlock cfg ctx S0 block) ∧ Safe (BlockM.postSlotTransition cfg ctx S0 block) ∧
+    (∀ post, BlockM.postSlotTransition cfg ctx S0 block = .ok post →
+      ∀ m, Block.state_transition_post_slots cfg S0 block ≠ .error (.invalid m)) := by
+  have h1 := Zrnt.Proofs.BlockM.processBlock_any cfg S0 p Bm C T k committee K KA KD ctx block ha htyped
+  have h2 := Zrnt.Proofs.BlockM.postSlot_any cfg S0 p Bm C T k committee K KA KD ctx block ha htyped r hroot
+  refine ⟨h1.1.2, h2.1.2, h1.2, h2.2, fun post hp m hm => ?_⟩
+  have := h2.1.2 m hm
+  rw [hp] at this
+  cases this
+
 end Zrnt.Proofs.C03
